@@ -155,7 +155,8 @@ class Observer:
                 o.fin_index = len(O.fin_order)
                 O.fin_order.append(job.id)
                 o.known_at_entry = job.call_hash
-                o.children_at_fin = [c.id for c in job.child_jobs]
+                # which children already carry a call hash (finished, or replayed from the cache / a twin)
+                o.children_at_fin = [(c.id, c.call_hash) for c in job.child_jobs]
                 o.was_cached = bool(job.was_cached)
                 if kind == "resolve":
                     o.result_hash = reg.get_hash(x)
@@ -248,7 +249,7 @@ def check_db(runs, db, type_registry=None, strict_values=True):
         allobs.update(run["obs"].jobs)
 
     # ---- A. expected hashes, in finishing order; errors take their value hash from the row they name
-    E, kids, problems = {}, {}, []
+    E, kids, problems, claims = {}, {}, [], []
     explains = {}            # call hash -> list of (job id, children [(cid, hash)], recorded_hint)
     for run in runs:
         ob = run["obs"]
@@ -277,7 +278,17 @@ def check_db(runs, db, type_registry=None, strict_values=True):
                         if n["value_hash"] != o.result_hash:
                             add("replay:other-result", f"replayed job {o.n} returned a value that is not the node's result")
                 continue
-            ch = [(cid, E[cid]) for cid in o.children_at_fin if E.get(cid)]
+            ch = []
+            for cid, hc in o.children_at_fin:
+                if E.get(cid):
+                    ch.append((cid, E[cid]))       # finished child: the harness's own hash
+                    if hc != E[cid]:
+                        add("child:hash", f"job {o.n}: finished child {allobs[cid].n} carries {str(hc)[:8]}, expected {E[cid][:8]}")
+                elif hc:
+                    # not finished yet but already replayed from the cache or from a finished twin:
+                    # the claim is checked when the child finishes (or against the recorded nodes)
+                    ch.append((cid, hc))
+                    claims.append((cid, hc, o.n))
             kids[jid] = ch
             if o.args_hash is None:
                 add("observer:no-args", f"job {o.n} finished without evaluated arguments")
@@ -309,6 +320,12 @@ def check_db(runs, db, type_registry=None, strict_values=True):
                     add("failed:result-not-error", f"failed job {o.n}: result value of its node is not an ErrorValue row")
                 E[jid] = h
                 explains.setdefault(h, []).append((jid, ch))
+
+    for cid, hc, pn in claims:
+        if E.get(cid, hc) != hc:
+            add("child:claim", f"job {pn} used {hc[:8]} for its replayed child {allobs[cid].n}, which finished with {E[cid][:8]}")
+        elif cid not in E and allobs[cid].prov and hc not in nodes:
+            add("child:claim-unrecorded", f"job {pn} used {hc[:8]} for its replayed child {allobs[cid].n}: no such node")
 
     # ---- B. jobs: rows mirror the observed job tree
     for run in runs:
